@@ -57,6 +57,15 @@
 ; net.SplitHostPort, uninterpreted: the port it returns and whether it succeeded
 (declare-fun splitPort (GStr) GStr)
 (declare-fun splitOK (GStr) Bool)
+; urfave/cli flag lookups (C19), uninterpreted: the value the library reports for a flag name of a context
+(declare-fun flagStr (Int GStr) GStr)
+(declare-fun flagInt (Int GStr) Int)
+(declare-fun flagInt64 (Int GStr) Int)
+(declare-fun flagBool (Int GStr) Bool)
+(declare-fun flagDur (Int GStr) Int)
+; net.JoinHostPort and strconv.Itoa, uninterpreted
+(declare-fun joinHP (GStr GStr) GStr)
+(declare-fun itoa (Int) GStr)
 ; name of an open file
 (declare-fun fileName (Int) GStr)
 ; eviction queue (ghost bag of entries handed to the remover)
